@@ -8,6 +8,10 @@ CONSTANTS
   MaxSeeds = 1
   MaxSeedLen = 2
   WithTwins = TRUE
+  NBig = 0
+  KBig = 1
+  NBigMin = 1
+  NBigMax = 1
 INIT GInit
 NEXT GNext
 POSTCONDITION Post
